@@ -39,7 +39,8 @@ CONSTANTS Cap,          \* queue capacity; 0 = rendezvous; UNB = unbounded
           StopPolicy,   \* "fixed" | "nohelper" | "legacy"
           Sampler,      \* TRUE: a thread sampling the counters runs concurrently
           Monitor,      \* TRUE: compose with the QueueProp monitor (history; smaller configs)
-          Hist          \* TRUE: record the behaviour for replay
+          Hist,         \* TRUE: record the behaviour for replay
+          GenMinM       \* behaviour generation only: handles are not dropped before this many emits started
 
 UNB  == 1000000
 NONE == 0
@@ -67,7 +68,9 @@ WTid == 100 + wgen            \* thread ids: producers/droppers = handle number,
 ErrMsg(m) == "wrapped-err-" \o ToString(m)
 
 M(f) == mon' = IF Monitor THEN f ELSE mon
-H(e) == hist' = IF Hist THEN Append(hist, e) ELSE hist
+\* every exported step carries the counters and the ghost state after the step
+H(e) == hist' = IF Hist THEN Append(hist, e @@ [s |-> submitted', d |-> drained', p |-> panics', rel |-> released',
+                                                    nacc |-> Len(accepted'), ndel |-> Len(delivered')]) ELSE hist
 
 Init ==
   /\ handles = {1} /\ nextH = 2 /\ nextM = 1
@@ -83,9 +86,10 @@ Init ==
 EmitStart(h) ==
   /\ h \in handles /\ ppc[h] = "idle" /\ nextM <= MaxMetrics /\ ~(dpc # "none" /\ dh = h)
   /\ ppc' = [ppc EXCEPT ![h] = "try"] /\ pm' = [pm EXCEPT ![h] = nextM] /\ nextM' = nextM + 1
-  /\ M(P!QECall(mon, h, nextM, h)) /\ H([a |-> "EmitStart", h |-> h, m |-> nextM])
+  /\ M(P!QECall(mon, h, nextM, h))
   /\ UNCHANGED <<handles, nextH, pok, chan, wk, cur, wgen, dpc, dh, helper, submitted, drained, panics,
                  spc, sS, sD, wrap, accepted, delivered, hlog, released>>
+  /\ H([a |-> "EmitStart", h |-> h, m |-> nextM])
 
 EmitTry(h) ==
   /\ ppc[h] = "try"
@@ -93,151 +97,161 @@ EmitTry(h) ==
      THEN /\ chan' = Append(chan, pm[h]) /\ accepted' = Append(accepted, pm[h]) /\ pok' = [pok EXCEPT ![h] = TRUE]
      ELSE /\ UNCHANGED <<chan, accepted>> /\ pok' = [pok EXCEPT ![h] = FALSE]
   /\ ppc' = [ppc EXCEPT ![h] = "count"]
-  /\ H([a |-> "EmitTry", h |-> h, m |-> pm[h], ok |-> CanSend])
   /\ UNCHANGED <<handles, nextH, nextM, pm, wk, cur, wgen, dpc, dh, helper, submitted, drained, panics,
                  spc, sS, sD, wrap, delivered, hlog, released, mon>>
+  /\ H([a |-> "EmitTry", h |-> h, m |-> pm[h], ok |-> CanSend])
 
 EmitCount(h) ==
   /\ ppc[h] = "count"
   /\ submitted' = IF pok[h] THEN submitted + 1 ELSE submitted
   /\ ppc' = [ppc EXCEPT ![h] = "ret"]
-  /\ H([a |-> "EmitCount", h |-> h, m |-> pm[h], submitted |-> submitted'])
   /\ UNCHANGED <<handles, nextH, nextM, pm, pok, chan, wk, cur, wgen, dpc, dh, helper, drained, panics,
                  spc, sS, sD, wrap, accepted, delivered, hlog, released, mon>>
+  /\ H([a |-> "EmitCount", h |-> h, m |-> pm[h], submitted |-> submitted'])
 
 EmitRet(h) ==
   /\ ppc[h] = "ret"
   /\ ppc' = [ppc EXCEPT ![h] = "idle"] /\ pm' = [pm EXCEPT ![h] = NONE]
   /\ M(P!QERet(mon, pm[h], pok[h], 1, IF pok[h] THEN "" ELSE "channel full", 1))
-  /\ H([a |-> "EmitRet", h |-> h, m |-> pm[h], ok |-> pok[h]])
   /\ UNCHANGED <<handles, nextH, nextM, pok, chan, wk, cur, wgen, dpc, dh, helper, submitted, drained, panics,
                  spc, sS, sD, wrap, accepted, delivered, hlog, released>>
+  /\ H([a |-> "EmitRet", h |-> h, m |-> pm[h], ok |-> pok[h]])
 
 (* ------------------------------ handles ----------------------------------- *)
 Clone(h) ==
   /\ h \in handles /\ ppc[h] = "idle" /\ nextH <= MaxHandles /\ ~(dpc # "none" /\ dh = h)
   /\ handles' = handles \cup {nextH} /\ nextH' = nextH + 1
-  /\ M(P!QClone(mon, h, nextH)) /\ H([a |-> "Clone", h |-> h, h2 |-> nextH])
+  /\ M(P!QClone(mon, h, nextH))
   /\ UNCHANGED <<nextM, ppc, pm, pok, chan, wk, cur, wgen, dpc, dh, helper, submitted, drained, panics,
                  spc, sS, sD, wrap, accepted, delivered, hlog, released>>
+  /\ H([a |-> "Clone", h |-> h, h2 |-> nextH])
 
 Stops(h) == StopPolicy = "legacy" \/ handles = {h}
 
 \* dropping a handle that does not stop the worker is a single step (an Arc decrement)
 DropQuiet(h) ==
-  /\ h \in handles /\ ppc[h] = "idle" /\ dpc = "none" /\ ~Stops(h)
+  /\ h \in handles /\ ppc[h] = "idle" /\ dpc = "none" /\ ~Stops(h) /\ nextM > GenMinM
   /\ handles' = handles \ {h}
-  /\ M(P!QDropEnd(P!QDropBegin(mon, h, h), h, FALSE)) /\ H([a |-> "DropQuiet", h |-> h])
+  /\ M(P!QDropEnd(P!QDropBegin(mon, h, h), h, FALSE))
   /\ UNCHANGED <<nextH, nextM, ppc, pm, pok, chan, wk, cur, wgen, dpc, dh, helper, submitted, drained, panics,
                  spc, sS, sD, wrap, accepted, delivered, hlog, released>>
+  /\ H([a |-> "DropQuiet", h |-> h])
 
 DropStart(h) ==
-  /\ h \in handles /\ ppc[h] = "idle" /\ dpc = "none" /\ Stops(h)
+  /\ h \in handles /\ ppc[h] = "idle" /\ dpc = "none" /\ Stops(h) /\ nextM > GenMinM
   /\ handles' = handles \ {h} /\ dpc' = "begin" /\ dh' = h
-  /\ M(P!QDropBegin(mon, h, h)) /\ H([a |-> "DropStart", h |-> h])
+  /\ M(P!QDropBegin(mon, h, h))
   /\ UNCHANGED <<nextH, nextM, ppc, pm, pok, chan, wk, cur, wgen, helper, submitted, drained, panics,
                  spc, sS, sD, wrap, accepted, delivered, hlog, released>>
+  /\ H([a |-> "DropStart", h |-> h])
 
 StopTry ==                      \* sender.try_send(None)
   /\ dpc = "begin"
   /\ IF CanSend THEN chan' = Append(chan, NONE) /\ dpc' = "done"
                 ELSE UNCHANGED chan /\ dpc' = (IF StopPolicy = "fixed" THEN "full" ELSE "done")
-  /\ H([a |-> "StopTry", h |-> dh, sent |-> CanSend])
   /\ UNCHANGED <<handles, nextH, nextM, ppc, pm, pok, wk, cur, wgen, dh, helper, submitted, drained, panics,
                  spc, sS, sD, wrap, accepted, delivered, hlog, released, mon>>
+  /\ H([a |-> "StopTry", h |-> dh, sent |-> CanSend])
 
 SpawnHelper ==                  \* TrySendError::Full: hand the marker to a short-lived thread
   /\ dpc = "full" /\ helper = "none"
   /\ helper' = "begin" /\ dpc' = "done"
-  /\ H([a |-> "SpawnHelper", h |-> dh])
   /\ UNCHANGED <<handles, nextH, nextM, ppc, pm, pok, chan, wk, cur, wgen, dh, submitted, drained, panics,
                  spc, sS, sD, wrap, accepted, delivered, hlog, released, mon>>
+  /\ H([a |-> "SpawnHelper", h |-> dh])
 
 HelperSend ==                   \* blocking send: waits for room
   /\ helper = "begin" /\ CanSend
   /\ chan' = Append(chan, NONE) /\ helper' = "ended"
-  /\ H([a |-> "HelperSend"])
   /\ UNCHANGED <<handles, nextH, nextM, ppc, pm, pok, wk, cur, wgen, dpc, dh, submitted, drained, panics,
                  spc, sS, sD, wrap, accepted, delivered, hlog, released, mon>>
+  /\ H([a |-> "HelperSend"])
 
 DropRet ==
   /\ dpc = "done"
   /\ dpc' = "none"
-  /\ M(P!QDropEnd(mon, dh, FALSE)) /\ H([a |-> "DropRet", h |-> dh])
+  /\ M(P!QDropEnd(mon, dh, FALSE))
   /\ UNCHANGED <<handles, nextH, nextM, ppc, pm, pok, chan, wk, cur, wgen, dh, helper, submitted, drained, panics,
                  spc, sS, sD, wrap, accepted, delivered, hlog, released>>
+  /\ H([a |-> "DropRet", h |-> dh])
 
 (* ------------------------------ worker ------------------------------------ *)
 Recv ==
   /\ wk = "recv" /\ chan # <<>>
   /\ chan' = Tail(chan)
   /\ IF Head(chan) = NONE THEN wk' = "gotnone" /\ cur' = NONE ELSE wk' = "got" /\ cur' = Head(chan)
-  /\ H([a |-> "Recv", m |-> Head(chan)])
   /\ UNCHANGED <<handles, nextH, nextM, ppc, pm, pok, wgen, dpc, dh, helper, submitted, drained, panics,
                  spc, sS, sD, wrap, accepted, delivered, hlog, released, mon>>
+  /\ H([a |-> "Recv", m |-> Head(chan)])
 
 CountDrained ==
   /\ wk = "got" /\ drained' = drained + 1 /\ wk' = "counted"
-  /\ H([a |-> "CountDrained", drained |-> drained'])
   /\ UNCHANGED <<handles, nextH, nextM, ppc, pm, pok, chan, cur, wgen, dpc, dh, helper, submitted, panics,
                  spc, sS, sD, wrap, accepted, delivered, hlog, released, mon>>
+  /\ H([a |-> "CountDrained", drained |-> drained'])
 
 TaskBegin ==
   /\ wk = "counted" /\ wk' = "insink" /\ delivered' = Append(delivered, cur)
-  /\ M(P!QWEnter(mon, cur, WTid)) /\ H([a |-> "TaskBegin", m |-> cur])
+  /\ M(P!QWEnter(mon, cur, WTid))
   /\ UNCHANGED <<handles, nextH, nextM, ppc, pm, pok, chan, cur, wgen, dpc, dh, helper, submitted, drained, panics,
                  spc, sS, sD, wrap, accepted, hlog, released>>
+  /\ H([a |-> "TaskBegin", m |-> cur])
 
 TaskEnd(o) ==
   /\ wk = "insink" /\ o \in Outcomes \ {"panic"}
   /\ IF o = "err" /\ HasEH THEN wk' = "eh" /\ UNCHANGED cur ELSE wk' = "recv" /\ cur' = NONE
-  /\ M(P!QWLeave(mon, cur, o, IF o = "err" THEN ErrMsg(cur) ELSE "")) /\ H([a |-> "TaskEnd", m |-> cur, o |-> o])
+  /\ M(P!QWLeave(mon, cur, o, IF o = "err" THEN ErrMsg(cur) ELSE ""))
   /\ UNCHANGED <<handles, nextH, nextM, ppc, pm, pok, chan, wgen, dpc, dh, helper, submitted, drained, panics,
                  spc, sS, sD, wrap, accepted, delivered, hlog, released>>
+  /\ H([a |-> "TaskEnd", m |-> cur, o |-> o])
 
 HandlerDone ==
   /\ wk = "eh" /\ wk' = "recv" /\ cur' = NONE /\ hlog' = Append(hlog, cur)
-  /\ M(P!QEH(mon, ErrMsg(cur), WTid)) /\ H([a |-> "HandlerDone", m |-> cur])
+  /\ M(P!QEH(mon, ErrMsg(cur), WTid))
   /\ UNCHANGED <<handles, nextH, nextM, ppc, pm, pok, chan, wgen, dpc, dh, helper, submitted, drained, panics,
                  spc, sS, sD, wrap, accepted, delivered, released>>
+  /\ H([a |-> "HandlerDone", m |-> cur])
 
 TaskPanic ==                    \* the wrapped sink panics: run() unwinds into Sentinel::drop
   /\ wk = "insink" /\ "panic" \in Outcomes
   /\ wk' = "unwinding" /\ cur' = NONE /\ panics' = panics + 1
-  /\ M(P!QWLeave(mon, cur, "panic", "")) /\ H([a |-> "TaskPanic", m |-> cur, panics |-> panics'])
+  /\ M(P!QWLeave(mon, cur, "panic", ""))
   /\ UNCHANGED <<handles, nextH, nextM, ppc, pm, pok, chan, wgen, dpc, dh, helper, submitted, drained,
                  spc, sS, sD, wrap, accepted, delivered, hlog, released>>
+  /\ H([a |-> "TaskPanic", m |-> cur, panics |-> panics'])
 
 Respawn ==                      \* a new thread runs the same worker
   /\ wk = "unwinding" /\ wk' = "recv" /\ wgen' = wgen + 1
-  /\ H([a |-> "Respawn"])
   /\ UNCHANGED <<handles, nextH, nextM, ppc, pm, pok, chan, cur, dpc, dh, helper, submitted, drained, panics,
                  spc, sS, sD, wrap, accepted, delivered, hlog, released, mon>>
+  /\ H([a |-> "Respawn"])
 
 Exit ==
   /\ wk = "gotnone" /\ wk' = "exiting"
-  /\ H([a |-> "Exit"])
   /\ UNCHANGED <<handles, nextH, nextM, ppc, pm, pok, chan, cur, wgen, dpc, dh, helper, submitted, drained, panics,
                  spc, sS, sD, wrap, accepted, delivered, hlog, released, mon>>
+  /\ H([a |-> "Exit"])
 
 ThreadEnd ==
   /\ wk = "exiting" /\ wk' = "ended"
-  /\ H([a |-> "ThreadEnd"])
   /\ UNCHANGED <<handles, nextH, nextM, ppc, pm, pok, chan, cur, wgen, dpc, dh, helper, submitted, drained, panics,
                  spc, sS, sD, wrap, accepted, delivered, hlog, released, mon>>
+  /\ H([a |-> "ThreadEnd"])
 
 \* the wrapped sink is destroyed when the last owner of the worker goes away
 Release ==
   /\ ~released /\ wk = "ended" /\ handles = {} /\ dpc = "none"
   /\ released' = TRUE
-  /\ M(P!QWDropped(mon)) /\ H([a |-> "Release"])
+  /\ M(P!QWDropped(mon))
   /\ UNCHANGED <<handles, nextH, nextM, ppc, pm, pok, chan, wk, cur, wgen, dpc, dh, helper, submitted, drained, panics,
                  spc, sS, sD, wrap, accepted, delivered, hlog>>
+  /\ H([a |-> "Release"])
 
 (* ------------------------------ sampler ----------------------------------- *)
 SampleS == /\ Sampler /\ spc = "idle" /\ sS' = submitted /\ spc' = "s"
+           /\ M(P!QSampleBegin(mon))
            /\ UNCHANGED <<handles, nextH, nextM, ppc, pm, pok, chan, wk, cur, wgen, dpc, dh, helper, submitted,
-                          drained, panics, sD, wrap, accepted, delivered, hlog, released, mon, hist>>
+                          drained, panics, sD, wrap, accepted, delivered, hlog, released, hist>>
 SampleD == /\ spc = "s" /\ sD' = drained /\ spc' = "d"
            /\ UNCHANGED <<handles, nextH, nextM, ppc, pm, pok, chan, wk, cur, wgen, dpc, dh, helper, submitted,
                           drained, panics, sS, wrap, accepted, delivered, hlog, released, mon, hist>>
